@@ -232,6 +232,7 @@ class C08(Prop):
                 ([], {"k": "signal", "sig": "Interrupt"}, [2], [], False, False, "exit_after=20000,on_term=exit:0"),
                 (["--stop-signal=HUP", "--stop-timeout=300ms"], {"k": "signal", "sig": "Terminate"}, [15], [], False, False, "exit_after=20000,on_hup=ignore"),
                 (["--stop-timeout=200ms"], {"k": "signal", "sig": "Interrupt"}, [2], [], False, False, "exit_after=20000,on_term=ignore"),
+                (["--stop-timeout=1"], {"k": "signal", "sig": "Terminate"}, [15], [], False, False, "exit_after=20000,on_term=ignore"),   # unit-less = seconds
                 (["--stdin-quit"], {"k": "eof"}, [], [], True, True, "exit_after=20000,on_term=exit:0"),
                 (["--map-signal=TERM:HUP"], {"k": "signal", "sig": "Terminate"}, [15], [15], False, False, "exit_after=20000,on_hup=ignore"),
                 (["--map-signal=INT:USR1"], {"k": "signal", "sig": "Interrupt"}, [2], [2], False, False, "exit_after=20000,on_usr1=ignore"),
@@ -242,16 +243,34 @@ class C08(Prop):
                 (["--map-signal=INT:INT"], {"k": "signal", "sig": "Terminate"}, [15], [2], False, False, "exit_after=20000,on_term=exit:0,on_int=ignore")]):
             cli.append({"id": k, "args": args, "child_script": script, "events": [dict(ev, at_ms=300)], "wait_ms": 1500,
                         "m": (sigs, mapped, sq, eof, args)})
+        # real OS signals to the process hosting the instance: they travel through the signal source (its priorities included), the
+        # filterer the CLI installs and the debounce window.  One process per case (signal dispositions are process-wide).
+        FP = 'any(.tags[] | select(.kind == "fs"); .simple == "create")'
+        oscli = []
+        for args, sig, sigs, mapped, script in [
+                (["--debounce=1s", "--stop-timeout=300ms"], "Terminate", [15], [], "exit_after=20000,on_term=exit:0"),
+                (["--debounce=1s", "--stop-timeout=300ms"], "Interrupt", [2], [], "exit_after=20000,on_term=exit:0"),
+                (["--filter-prog", FP, "--stop-timeout=300ms"], "Terminate", [15], [], "exit_after=20000,on_term=exit:0"),
+                (["--filter-prog", FP, "--stop-timeout=300ms"], "Interrupt", [2], [], "exit_after=20000,on_term=ignore"),
+                (["--map-signal=TERM:HUP"], "Terminate", [15], [15], "exit_after=20000,on_hup=ignore")]:
+            oscli.append({"id": len(cli) + len(oscli), "args": args, "child_script": script, "events": [{"k": "os_signal", "sig": sig, "at_ms": 400}],
+                          "wait_ms": 2800, "m": (sigs, mapped, False, False, args),
+                          # the property bounds the time from the handler's quit request; how long the signal takes to reach the
+                          # handler is not bounded by it, so a debounce window is allowed for (the filter must not stop it, though)
+                          "slack_ms": 1000 if "--debounce=1s" in args else 0})
         try:
             cobs = run_parallel("h_cli", "onbusy", cli, "c08c", procs=8)
+            cobs += run_parallel("h_cli", "onbusy", oscli, "c08cos", procs=len(oscli))
         except RuntimeError as e:
             c.errors.append(str(e))
             return c
+        cli += oscli
         terms = []
         for cc in cli:
             sigs, mapped, sq, eof, args = cc["m"]
             ss = next((a.split("=")[1] for a in args if a.startswith("--stop-signal=")), None)
-            st = next((int(a.split("=")[1][:-2]) for a in args if a.startswith("--stop-timeout=")), 10000)
+            stv = next((a.split("=")[1] for a in args if a.startswith("--stop-timeout=")), "10000ms")
+            st = int(stv[:-2]) if stv.endswith("ms") else int(float(stv) * 1000)
             ssn = {"HUP": 1}.get(ss)
             terms.append(f"(eval_cli_quit {coq_list([str(x) for x in sigs])} {coq_list([str(x) for x in mapped])} {str(sq).lower()} {str(eof).lower()} "
                          f"0%nat {('(Some %d)' % ssn) if ssn else 'None'} {st})%N")
@@ -261,7 +280,7 @@ class C08(Prop):
             return c
         for cc, o, m in zip(cli, cobs, cres):
             c.evaluations += 1
-            c.count("C:cli")
+            c.count("C:cli-os-signal" if cc["events"][0]["k"] == "os_signal" else "C:cli")
             brief = {"args": cc["args"], "event": cc["events"][0], "child": cc["child_script"]}
             if "error" in o:
                 c.errors.append(f"h_cli: {o['error']}")
@@ -281,9 +300,14 @@ class C08(Prop):
                 ok = False
                 c.failing.append({"case": brief, "impl": o["main"], "clause": "C08_cli_signal_quits: interrupt/terminate/EOF did not shut the CLI down"})
             else:
-                if dur > grace + MARGIN + 60:
+                if dur > grace + MARGIN + 60 + cc.get("slack_ms", 0):
                     ok = False
                     c.failing.append({"case": brief, "impl": {"ms": dur}, "expected": {"grace": grace}, "clause": "C08: CLI shutdown later than the stop timeout"})
+                signame = {15: "term", 2: "int", 1: "hup", 10: "usr1", 3: "quit"}.get(sig, "?")
+                if f"on_{signame}=ignore" in cc["child_script"] and got[:1] == [sig] and dur < grace - 60:
+                    ok = False
+                    c.failing.append({"case": brief, "impl": {"ms": dur}, "expected": {"grace": grace},
+                                      "clause": "C08: the command ignoring the stop signal was killed before the stop timeout (the graceful quit was not graceful)"})
                 if got[:1] != [sig]:
                     ok = False
                     c.failing.append({"case": brief, "impl": {"signals": got}, "expected": sig, "clause": "C08_cli_first_quit_is_graceful: the command did not receive the stop signal"})
